@@ -109,7 +109,7 @@ class Run(object):
         for c in dsl.CONTRACTS.values():
             if self.prop not in c.props or c.trusted or not c.real:
                 continue
-            if self.only and not any(o in c.key for o in self.only):
+            if self.only and not any((o[1:] == c.key) if o.startswith('=') else (o in c.key) for o in self.only):
                 continue
             for twin in c.twins:
                 ref = c.real.get(twin)
